@@ -447,26 +447,20 @@ func c16R4(c *Ctx) {
 				c.Bad("C16.R4", fn.Key()+": cloud call error bound", p.Pos(W), fn.Key(), "err = <cloud call>", "error discarded")
 				continue
 			}
-			arm := errArm(fn, errObj, W.End())
-			if arm == nil {
-				c.Bad("C16.R4", fn.Key()+": cloud call error tested", p.Pos(W), fn.Key(), "if err != nil { rollBack(); return … }", "no error arm after the cloud call")
-				continue
-			}
-			// the arm directly follows W
-			direct := false
-			for i, s := range fn.Decl.Body.List {
-				if s == ast.Stmt(W) && i+1 < len(fn.Decl.Body.List) && fn.Decl.Body.List[i+1] == ast.Stmt(arm) {
-					direct = true
+			// explicit form: on every path from the cloud call along which its error is non-nil, the
+			// put-back runs before the function is left (whatever the shape of the test: error arm
+			// first or success first)
+			q.Prune = func(cond ast.Expr, takeTrue bool) bool {
+				be, ok := ast.Unparen(cond).(*ast.BinaryExpr)
+				if !ok || identObj(info, be.X) != errObj || !info.Types[ast.Unparen(be.Y)].IsNil() {
+					return false
 				}
+				return (be.Op == token.NEQ && !takeTrue) || (be.Op == token.EQL && takeTrue)
 			}
-			c.Check(direct, "C16.R4", fn.Key()+": the error arm directly follows the cloud call", p.Pos(arm), fn.Key(), "no statement between the call and `if err != nil`", "other statements in between")
-			q.Prune = func(cond ast.Expr, takeTrue bool) bool { return cond == arm.Cond && !takeTrue }
-			exit := func(nd ast.Node) bool {
-				_, isRet := nd.(*ast.ReturnStmt)
-				return isRet && nd.Pos() > arm.Body.Pos() && nd.End() <= arm.Body.End()
-			}
-			w := q.Escapes(isExactly(arm.Cond), exit, rbNode, nil)
-			c.Check(w == nil, "C16.R4", fn.Key()+": every failure exit of the cloud call puts the token back", p.Pos(arm), fn.Key(), "must-pass: err != nil → rollBack() → return", "path without put-back: "+p.describePath(w))
+			reassigned := assignsVar(info, errObj)
+			w := q.Escapes(isExactly(W), nil, func(k ast.Node) bool { return rbNode(k) || (k != ast.Node(W) && reassigned(k)) }, nil)
+			c.Check(w == nil, "C16.R4", fn.Key()+": every failure exit of the cloud call puts the token back", p.Pos(W), fn.Key(), "must-pass on err != nil: cloud call → rollBack() → return", "path without put-back: "+p.describePath(w))
+			arm := W
 			q.Prune = nil
 			w2 := q.Escapes(rbNode, rbNode, nil, nil)
 			c.Check(w2 == nil, "C16.R4", fn.Key()+": the token is put back at most once", p.Pos(arm), fn.Key(), "no path passes two put-backs", "path: "+p.describePath(w2))
